@@ -2,8 +2,9 @@
 // what rules allow".
 //
 // (a) lines: items are generated and PRINTED with random whitespace placements, plus a raw byte
-// stream and a malformed stream; every line goes through the real file.ParseLine (and whole files
-// through ParseByLine + Check); the projected result (kind, message, delay, pattern source, count,
+// stream and a malformed stream; every line goes through the real file.ParseLine, and whole texts
+// (LF / CRLF line ends, empty lines, an unterminated last line, lines around the 64 KiB limit of
+// bufio.Scanner) through the real LoadFile / ParseByLine + Check; the projected result (kind, message, delay, pattern source, count,
 // timeout - never an error text) is emitted as a Coq case together with the oracle tables recorded
 // from time.ParseDuration / regexp.Compile / strconv.Atoi for the operands of that line.
 // (b) filter: random accept/deny/reset sequences interleaved with lines through the real
@@ -14,7 +15,9 @@
 package main
 
 import (
+	"bufio"
 	"context"
+	"errors"
 	"fmt"
 	"io/ioutil"
 	"os"
@@ -41,23 +44,52 @@ type Item struct {
 	Verb    string `json:"verb,omitempty"` // accept deny reset unknown
 }
 
+func (it Item) String() string {
+	switch it.K {
+	case "comment":
+		return fmt.Sprintf("comment(echo=%v, %q)", it.Echo, it.Msg)
+	case "wait":
+		return fmt.Sprintf("wait(%s)", time.Duration(it.Delay))
+	case "send":
+		return fmt.Sprintf("send(%q, delay=%s, pattern=%q, count=%d, timeout=%s)", clip(it.Msg), time.Duration(it.Delay), it.Pat, it.Count, time.Duration(it.Timeout))
+	case "filter":
+		return fmt.Sprintf("filter(%s, %q)", it.Verb, it.Pat)
+	}
+	return it.K
+}
+
+func clip(s string) string {
+	if len(s) > 200 {
+		return s[:100] + fmt.Sprintf("...(%d bytes)...", len(s)-200) + s[len(s)-100:]
+	}
+	return s
+}
+
 type Ev struct {
-	A string `json:"a,omitempty"` // accept deny reset unknown ("" = a line)
+	A string `json:"a,omitempty"` // accept deny reset unknown del-accept del-deny ("" = a line)
 	S string `json:"s"`           // pattern source or line
 }
 
+// Chunk is a piece of the text of a play file: literal bytes, or Rep copies of the byte Ch.
+type Chunk struct {
+	Lit string `json:"lit,omitempty"`
+	Rep int    `json:"rep,omitempty"`
+	Ch  byte   `json:"ch,omitempty"`
+}
+
 type Case struct {
-	Kind   string   `json:"kind"`   // parse | file | filter
-	Stream string   `json:"stream"` // corpus printed raw malformed
+	Kind   string   `json:"kind"`   // parse | text | filter
+	Stream string   `json:"stream"` // corpus printed raw malformed text filter
 	Line   string   `json:"line,omitempty"`
-	Lines  []string `json:"lines,omitempty"`
+	Text   []Chunk  `json:"text,omitempty"`
 	Evs    []Ev     `json:"evs,omitempty"`
 	Want   *Item    `json:"want,omitempty"` // the item that was printed (round trip), when it is canonical
 	// observed on the real code
 	Obs    *Item    `json:"obs,omitempty"`
 	ObsL   []Item   `json:"obs_items,omitempty"`
-	NErr   int      `json:"nerr,omitempty"`
-	Failed bool     `json:"failed,omitempty"`
+	NErr    int     `json:"nerr,omitempty"`
+	Failed  bool    `json:"failed,omitempty"`
+	TooLong bool    `json:"too_long,omitempty"`
 	Out    []string `json:"out,omitempty"`
 	// oracle tables recorded from the real libraries
 	Durs  map[string]*int64   `json:"durs,omitempty"`
@@ -185,15 +217,34 @@ func runParse(c *Case) {
 	c.Obs = &it
 }
 
-func runFile(c *Case) {
-	c.Durs, c.Res, c.Ints = nil, nil, nil
-	for _, l := range c.Lines {
-		c.record(l)
+func textOf(cs []Chunk) string {
+	var sb strings.Builder
+	for _, c := range cs {
+		if c.Rep > 0 {
+			sb.WriteString(strings.Repeat(string([]byte{c.Ch}), c.Rep))
+		} else {
+			sb.WriteString(c.Lit)
+		}
 	}
-	text := strings.Join(c.Lines, "\n") + "\n"
-	if len(c.Lines) == 0 {
-		text = ""
+	return sb.String()
+}
+
+// physLines: the physical lines of a text, split by hand (not with bufio): a line ends at \n, a
+// non-empty remainder after the last \n is a line too, one trailing \r is not part of the line.
+func physLines(text string) (raw []string) {
+	if text == "" {
+		return nil
 	}
+	parts := strings.Split(text, "\n")
+	if parts[len(parts)-1] == "" {
+		parts = parts[:len(parts)-1]
+	}
+	return parts
+}
+
+func dropCR(l string) string { return strings.TrimSuffix(l, "\r") }
+
+func collect(run func(out chan interface{}) error) ([]interface{}, error) {
 	out := make(chan interface{})
 	var got []interface{}
 	done := make(chan struct{})
@@ -203,18 +254,57 @@ func runFile(c *Case) {
 		}
 		close(done)
 	}()
-	err := file.ParseByLine(strings.NewReader(text), out)
+	err := run(out)
 	<-done
-	if err != nil {
-		got = append(got, fmt.Errorf("ParseByLine: %v", err))
+	return got, err
+}
+
+// runText: the bytes go into a real file and through file.LoadFile (ParseFile, ParseByLine), and
+// once more through ParseByLine on a reader; then Check.  Returns Check's texts and a note when
+// the two ways of loading disagree.
+func runText(c *Case) (errs []string, note string) {
+	c.Durs, c.Res, c.Ints = nil, nil, nil
+	text := textOf(c.Text)
+	c.record("")
+	for _, l := range physLines(text) {
+		if len(l) < 66000 {
+			c.record(dropCR(l))
+		}
 	}
+	dir := os.Getenv("VERIF_WORK")
+	if dir == "" {
+		dir = os.TempDir()
+	}
+	f, err := ioutil.TempFile(dir, "c20-*.play")
+	if err != nil {
+		fmt.Fprintln(os.Stderr, err)
+		os.Exit(2)
+	}
+	f.WriteString(text)
+	f.Close()
+	defer os.Remove(f.Name())
+	got, lerr := file.LoadFile(f.Name())
+	got2, lerr2 := collect(func(out chan interface{}) error { return file.ParseByLine(strings.NewReader(text), out) })
 	c.ObsL = nil
 	for _, it := range got {
 		c.ObsL = append(c.ObsL, project(it))
 	}
-	errs, cerr := file.Check(got)
+	same := len(got) == len(got2) && (lerr == nil) == (lerr2 == nil)
+	for i := 0; same && i < len(got); i++ {
+		same = project(got2[i]) == c.ObsL[i]
+	}
+	if !same {
+		note = fmt.Sprintf("LoadFile gave %d items (err %v), ParseByLine on the same bytes %d items (err %v)", len(got), lerr, len(got2), lerr2)
+	}
+	c.TooLong = lerr != nil
+	if lerr != nil && !errors.Is(lerr, bufio.ErrTooLong) {
+		note += fmt.Sprintf(" LoadFile failed with %v", lerr)
+	}
+	var cerr error
+	errs, cerr = file.Check(got)
 	c.NErr = len(errs)
 	c.Failed = cerr != nil
+	return errs, note
 }
 
 func mkAction(e Ev) file.FilterAction {
@@ -229,19 +319,23 @@ func mkAction(e Ev) file.FilterAction {
 	return file.FilterAction{Verb: file.Unknown}
 }
 
-const sentinel = "\x00<<c20-end>>"
+func hasDelete(evs []Ev) bool {
+	for _, e := range evs {
+		if e.A == "del-accept" || e.A == "del-deny" {
+			return true
+		}
+	}
+	return false
+}
+
+var filterStalls int
 
 // runFilter drives the real FilterLines goroutine: every send is a rendezvous with its single
-// select loop, so the events are handled in order; a final reset + sentinel line marks the end.
-// It also replays the history on the Filter methods and returns their verdicts.
+// select loop, which handles one event completely (including the write to w, buffered here)
+// before it receives the next; so once a closing no-op action has been taken, everything the
+// goroutine logged is in w.  The same history goes through the Filter methods (direct); a history
+// with deletes (DeleteAcceptPattern / DeleteDenyPattern have no FilterAction) only there.
 func runFilter(c *Case) (direct []string) {
-	ctx, cancel := context.WithCancel(context.Background())
-	defer cancel()
-	a := make(chan file.FilterAction)
-	in := make(chan file.Line)
-	w := make(chan file.Line, len(c.Evs)+2)
-	go file.FilterLines(ctx, a, in, w)
-	f := file.NewFilter()
 	c.Match = map[string][]string{}
 	var lines []string
 	for _, e := range c.Evs {
@@ -265,37 +359,62 @@ func runFilter(c *Case) (direct []string) {
 			}
 		}
 	}
+	f := file.NewFilter()
+	direct = []string{}
 	for _, e := range c.Evs {
-		if e.A == "" {
-			in <- file.Line{Content: e.S}
+		switch e.A {
+		case "":
 			if f.Pass(e.S) {
 				direct = append(direct, e.S)
 			}
-			continue
-		}
-		act := mkAction(e)
-		a <- act
-		switch act.Verb {
-		case file.Accept:
-			f.AddAcceptPattern(act.Pattern)
-		case file.Deny:
-			f.AddDenyPattern(act.Pattern)
-		case file.Reset:
+		case "accept":
+			f.AddAcceptPattern(regexp.MustCompile(e.S))
+		case "deny":
+			f.AddDenyPattern(regexp.MustCompile(e.S))
+		case "del-accept":
+			f.DeleteAcceptPattern(regexp.MustCompile(e.S))
+		case "del-deny":
+			f.DeleteDenyPattern(regexp.MustCompile(e.S))
+		case "reset":
 			f.Reset()
 		}
 	}
-	a <- file.FilterAction{Verb: file.Reset}
-	in <- file.Line{Content: sentinel}
+	if hasDelete(c.Evs) || filterStalls >= 3 {
+		c.Out = direct
+		return direct
+	}
+	ctx, cancel := context.WithCancel(context.Background())
+	defer cancel()
+	a := make(chan file.FilterAction)
+	in := make(chan file.Line)
+	w := make(chan file.Line, len(c.Evs)+2)
+	go file.FilterLines(ctx, a, in, w)
+	stalled := func() []string {
+		filterStalls++
+		c.Out = append(c.Out, "\x00<<c20: FilterLines stopped taking events>>")
+		return direct
+	}
 	c.Out = []string{}
+	for _, e := range append(append([]Ev{}, c.Evs...), Ev{A: "unknown"}) {
+		if e.A == "" {
+			select {
+			case in <- file.Line{Content: e.S}:
+			case <-time.After(5 * time.Second):
+				return stalled()
+			}
+			continue
+		}
+		select {
+		case a <- mkAction(e):
+		case <-time.After(5 * time.Second):
+			return stalled()
+		}
+	}
 	for {
 		select {
 		case l := <-w:
-			if l.Content == sentinel {
-				return direct
-			}
 			c.Out = append(c.Out, l.Content)
-		case <-time.After(5 * time.Second):
-			c.Out = append(c.Out, "\x00<<c20-filter-stalled>>")
+		default:
 			return direct
 		}
 	}
@@ -339,11 +458,11 @@ func (c *Case) tables() (string, string, string) {
 func (it Item) coq() string {
 	switch it.K {
 	case "comment":
-		return lib.App("IComment", lib.Bool(it.Echo), lib.Str(it.Msg))
+		return lib.App("IComment", lib.Bool(it.Echo), coqStr(it.Msg))
 	case "wait":
 		return lib.App("IWait", lib.Z(it.Delay))
 	case "send":
-		return lib.App("ISend", lib.Str(it.Msg), lib.Z(it.Delay), lib.Str(it.Pat), lib.Z(it.Count), lib.Z(it.Timeout))
+		return lib.App("ISend", coqStr(it.Msg), lib.Z(it.Delay), coqStr(it.Pat), lib.Z(it.Count), lib.Z(it.Timeout))
 	case "filter":
 		switch it.Verb {
 		case "accept":
@@ -361,6 +480,50 @@ func (it Item) coq() string {
 	return lib.App("IComment", "true", lib.Str("\x00unexpected "+it.K))
 }
 
+// rle splits s into literal pieces and runs of 32 or more equal bytes.
+func rle(s string) []Chunk {
+	var cs []Chunk
+	lit := 0
+	for i := 0; i < len(s); {
+		j := i
+		for j < len(s) && s[j] == s[i] {
+			j++
+		}
+		if j-i >= 32 {
+			if lit < i {
+				cs = append(cs, Chunk{Lit: s[lit:i]})
+			}
+			cs = append(cs, Chunk{Rep: j - i, Ch: s[i]})
+			lit = j
+		}
+		i = j
+	}
+	if lit < len(s) {
+		cs = append(cs, Chunk{Lit: s[lit:]})
+	}
+	return cs
+}
+
+func coqChunks(cs []Chunk) string {
+	xs := make([]string, len(cs))
+	for i, c := range cs {
+		if c.Rep > 0 {
+			xs[i] = lib.App("Rep", lib.N(uint64(c.Rep)), lib.N(uint64(c.Ch)))
+		} else {
+			xs[i] = lib.App("Lit", lib.Bytes([]byte(c.Lit)))
+		}
+	}
+	return lib.List(xs)
+}
+
+// coqStr emits a string; a long one run-length encoded.
+func coqStr(s string) string {
+	if len(s) <= 400 {
+		return lib.Str(s)
+	}
+	return "(text_of " + coqChunks(rle(s)) + ")"
+}
+
 func strList(xs []string) string {
 	ys := make([]string, len(xs))
 	for i, x := range xs {
@@ -374,13 +537,13 @@ func (c *Case) coq() string {
 	case "parse":
 		d, r, n := c.tables()
 		return lib.App("CParse", d, r, n, lib.Str(c.Line), c.Obs.coq())
-	case "file":
+	case "text":
 		d, r, n := c.tables()
 		its := make([]string, len(c.ObsL))
 		for i, it := range c.ObsL {
 			its[i] = it.coq()
 		}
-		return lib.App("CFile", d, r, n, strList(c.Lines), lib.List(its), lib.N(uint64(c.NErr)), lib.Bool(c.Failed))
+		return lib.App("CText", d, r, n, coqChunks(rle(textOf(c.Text))), lib.List(its), lib.N(uint64(c.NErr)), lib.Bool(c.Failed), lib.Bool(c.TooLong))
 	}
 	var mt, evs []string
 	for _, k := range sortedKeys(len(c.Match), func(f func(string)) {
@@ -400,6 +563,10 @@ func (c *Case) coq() string {
 			evs = append(evs, "(Act (Deny "+lib.Str(e.S)+"))")
 		case "reset":
 			evs = append(evs, "(Act Reset)")
+		case "del-accept":
+			evs = append(evs, "(Act (DelAccept "+lib.Str(e.S)+"))")
+		case "del-deny":
+			evs = append(evs, "(Act (DelDeny "+lib.Str(e.S)+"))")
 		default:
 			evs = append(evs, "(Act Unknown)")
 		}
@@ -446,9 +613,12 @@ func main() {
 		for i := 0; i < nBad; i++ {
 			cases = append(cases, Case{Kind: "parse", Stream: "malformed", Line: genMalformed(rng.Fork())})
 		}
-		nFiles := a.Pick(40, 400)
+		for _, t := range textCorpus() {
+			cases = append(cases, Case{Kind: "text", Stream: "text", Text: t})
+		}
+		nFiles := a.Pick(60, 600)
 		for i := 0; i < nFiles; i++ {
-			cases = append(cases, Case{Kind: "file", Stream: "file", Lines: genFile(rng.Fork())})
+			cases = append(cases, Case{Kind: "text", Stream: "text", Text: genText(rng.Fork(), i)})
 		}
 		nFilt := a.Pick(200, 3000)
 		for i := 0; i < nFilt; i++ {
@@ -466,20 +636,16 @@ func main() {
 			res.Count("parse:" + c.Stream)
 			res.Count("observed:" + c.Obs.K)
 			branches(c.Line, *c.Obs, res)
-		case "file":
-			runFile(c)
-			oracleFile(c, i, res)
-			res.Count("file")
-			res.CountN("file-lines", len(c.Lines))
-			if c.Failed {
-				res.Count("file:check-failed")
-			} else {
-				res.Count("file:check-clean")
-			}
+		case "text":
+			errs, note := runText(c)
+			oracleText(c, errs, note, i, res)
 		case "filter":
 			direct := runFilter(c)
 			oracleFilter(c, direct, i, res)
 			res.Count("filter")
+			if hasDelete(c.Evs) {
+				res.Count("filter:with-deletes(Filter methods only)")
+			}
 			res.CountN("filter-events", len(c.Evs))
 			res.CountN("filter-lines-logged", len(c.Out))
 		default:
